@@ -580,3 +580,18 @@ pub fn field_structured_u64(seed: u64) -> Vec<u64> {
     out.dedup();
     out
 }
+
+/// Every 16-bit pattern at every bit offset of a 64-bit value (65,535 x 49 values): all the values whose set
+/// bits fit in a 16-bit window - every byte value at every byte position among them. Code that decodes a
+/// 64-bit value through per-byte or per-word tables is wrong on a particular *pattern* inside one byte or
+/// word, which few-bit sets (at most 4-5 bits) and field-replicated values do not enumerate.
+pub fn for_each_window_value(mut f: impl FnMut(u64)) {
+    for off in 0..=48u32 {
+        for p in 1..=0xFFFFu64 {
+            // each value once: require the lowest bit of the pattern to be set, except at offset 0
+            if off == 0 || p & 1 == 1 {
+                f(p << off);
+            }
+        }
+    }
+}
